@@ -114,6 +114,58 @@ def strict_origin_sweep(ctx: Ctx, eng: morph.Engine):
                 ctx.fail(f"strict-origin:probe:{hint!r}", f"strict retort accepts {d!r} for {hint!r}", {"hint": repr(hint), "datum": repr(d)})
 
 
+def mapping_kind_probes(ctx: Ctx):
+    """"no dict or str where a list is required" for EVERY kind of Mapping and str - dict subclasses (OrderedDict, defaultdict,
+    Counter), non-dict Mappings (MappingProxyType, ChainMap, UserDict, a hand-written Mapping), str subclasses - and every loader
+    that iterates its datum: iterables, tuples, abstract collections, and flags loaded by member names"""
+    import collections
+    import enum
+    import types
+    from collections.abc import Collection, Iterable, Mapping, Sequence
+    from typing import Any
+
+    from adaptix import DebugTrail, Retort, flag_by_member_names
+
+    class HandMapping(Mapping):
+        def __init__(self, d):
+            self._d = d
+
+        def __getitem__(self, k):
+            return self._d[k]
+
+        def __iter__(self):
+            return iter(self._d)
+
+        def __len__(self):
+            return len(self._d)
+
+    class MyDict(dict):
+        pass
+
+    class Perm(enum.Flag):
+        A = 1
+        B = 2
+    base = {"A": 1, "B": 2}
+    data = [dict(base), collections.OrderedDict(base), collections.defaultdict(int, base), collections.Counter(base), MyDict(base),
+            types.MappingProxyType(base), collections.ChainMap(base), collections.UserDict(base), HandMapping(base), "AB"]
+    # (an instance of a str SUBCLASS is deliberately not probed: strict mode tests `type(data) is str` everywhere - the strict str
+    # loader itself rejects it - so for strict coercion it is "not a str"; the Mapping exclusion is an isinstance test)
+    hints = [list[str], list[Any], tuple[str, str], tuple[str, ...], set[str], frozenset[str], Iterable[str], Sequence[str],
+             Collection[Any], collections.deque[str], Perm]
+    for m in morph.MODES:
+        strict = Retort(strict_coercion=True, debug_trail=getattr(DebugTrail, m), recipe=[flag_by_member_names(Perm)])
+        for hint in hints:
+            ld = strict.get_loader(hint)
+            for d in data:
+                out = morph.run_real(ld, d)
+                ctx.note_case({"p": repr(hint), "d": type(d).__name__, "m": m}, nontrivial=True,
+                              kind=f"strict-mapping-kinds:{type(d).__name__}:{out['r']}")
+                if out["r"] == "ok":
+                    ctx.fail("strict-origin:mapping-or-str-kind", f"strict retort [{m}] loads a {type(d).__name__} ({d!r:.60}) as "
+                             f"{hint!r}", {"hint": repr(hint), "datum_type": type(d).__name__, "mode": m})
+                    return
+
+
 def derived_retort_probes(ctx: Ctx):
     """strict and lax retorts DERIVED from one another (replace / extend, with and without other options in the same call), used
     in either order: the strict one still rejects everything outside the allowed strict origins, whatever its lax sibling has
@@ -209,6 +261,7 @@ def run(ctx: Ctx):
     strict_origin_sweep(ctx, eng)
     literal_matrix(ctx, eng)
     derived_retort_probes(ctx)
+    mapping_kind_probes(ctx)
     specs = eng.gen_specs(ctx.budget(140, 2000), 3 if ctx.tier == "quick" else 4)
     recs = eng.load_records(specs, suite="load", n_valid=2, n_corrupt=3, n_hostile=2)
     for rec in recs:
@@ -228,6 +281,7 @@ def search(ctx: Ctx):
     strict_origin_sweep(ctx, eng)
     literal_matrix(ctx, eng)
     derived_retort_probes(ctx)
+    mapping_kind_probes(ctx)
     if not ctx.failures:
         for rec in eng.load_records(eng.gen_specs(1500, 4), n_valid=2, n_corrupt=4, n_hostile=3):
             oracle_pair(ctx, eng, rec)
@@ -239,4 +293,5 @@ def replay(ctx: Ctx, case) -> bool:
     strict_origin_sweep(ctx, eng)
     literal_matrix(ctx, eng)
     derived_retort_probes(ctx)
+    mapping_kind_probes(ctx)
     return len(ctx.failures) > before
